@@ -33,7 +33,7 @@ def main():
         return R.finish()
     cdir, harness, model = st
     cases = []   # (kind, bytes, parts or None)
-    n = 60000 if thorough else 12000
+    n = 300000 if thorough else 12000
     for fam in ('uri', 'iri'):
         g = Gen(random.Random(rnd.random()), fam)
         for _ in range(n // 2):
@@ -48,7 +48,7 @@ def main():
     # strings that do not come from the parts generator: random walks through the translated validators
     dfas = json.load(open(os.path.join(cdir, 'dfa.json')))
     for t, kind in (('uri_reference', 'uriref'), ('iri_reference', 'iriref'), ('uri', 'uri'), ('iri', 'iri')):
-        for b in c01.sample_strings(dfas[t], random.Random(rnd.random()), 4000 if thorough else 1500):
+        for b in c01.sample_strings(dfas[t], random.Random(rnd.random()), 20000 if thorough else 1500):
             tk = c01.tokens_of(dfas[t], b)
             if tk is not None and c01.dfa_run(dfas[t], tk):
                 cases.append((kind, b, None))
